@@ -471,6 +471,15 @@ fn programs(family: &str) -> Vec<(String, Outcome)> {
             p("f :: fn a: int do\n    ret 1\nend\nstart :: fn do\n    f(3)\nend\n", Outcome::Reject);
             p("f :: fn a: int do\n    ret\nend\nstart :: fn do\n    f(3)\nend\n", Outcome::Accept);
         }
+        "generics" => {
+            // a type variable named in a parameter and in the return type is one variable
+            let pre = "first :: fn xs: [*A] -> Maybe(*A) do\n    Maybe.None\nend\n";
+            p(&format!("{}start :: fn do\n    r: Maybe(int) = first([1, 2, 3])\nend\n", pre), Outcome::Accept);
+            p(&format!("{}start :: fn do\n    r: Maybe(str) = first([1, 2, 3])\nend\n", pre), Outcome::Reject);
+            p("same :: fn a: *A, b: *A -> *A do\n    a\nend\nstart :: fn do\n    x: int = same(1, 2)\nend\n", Outcome::Accept);
+            p("same :: fn a: *A, b: *A -> *A do\n    a\nend\nstart :: fn do\n    x: str = same(1, 2)\nend\n", Outcome::Reject);
+            p("same :: fn a: *A, b: *A -> *A do\n    a\nend\nstart :: fn do\n    x := same(1, \"s\")\nend\n", Outcome::Reject);
+        }
         "void" => {
             // storing `void` (the result of a function that returns nothing) in a variable, parameter, list or field
             let pre = "log :: fn msg: str do\nend\nkeep :: fn x do\nend\nkeepi :: fn x: int do\nend\n";
